@@ -7,6 +7,7 @@ import (
 	beacon "github.com/oasisprotocol/oasis-core/go/beacon/api"
 	"github.com/oasisprotocol/oasis-core/go/common"
 	registryState "github.com/oasisprotocol/oasis-core/go/consensus/cometbft/apps/registry/state"
+	roothashState "github.com/oasisprotocol/oasis-core/go/consensus/cometbft/apps/roothash/state"
 	registry "github.com/oasisprotocol/oasis-core/go/registry/api"
 )
 
@@ -116,4 +117,21 @@ func (g *TxGen) mkRegisterRuntime() *GenTx {
 		g.Notes[note]++
 	}
 	return gt
+}
+
+// roothashLimitsBelow reports whether one of the roothash message limits in the committed state is below n.
+func (g *TxGen) roothashLimitsBelow(n uint32) bool {
+	if g.h.Ref.Height == 0 {
+		return false
+	}
+	st, err := CommittedState(g.h.Ref, 0)
+	if err != nil {
+		return false
+	}
+	defer st.Close()
+	p, err := roothashState.NewImmutableState(st).ConsensusParameters(context.Background())
+	if err != nil {
+		return false
+	}
+	return p.MaxRuntimeMessages < n || p.MaxInRuntimeMessages < n
 }
